@@ -3,6 +3,9 @@ package vlib
 import (
 	"context"
 	"fmt"
+	schemaClient "github.com/sdcio/data-server/pkg/datastore/clients/schema"
+	"github.com/sdcio/data-server/pkg/datastore/target"
+	"os"
 	"strings"
 	"sync"
 	"time"
@@ -183,3 +186,111 @@ func (l *GNMILoop) Reapply(h *HistEnv, pfx, where string) *Failure {
 }
 
 var _ = fmt.Sprintf
+
+// ExecGNMILoop runs one history in the gNMI closed loop for the check pfx. Oracle ownership as in ExecNCLoop: the
+// device holds the merge (C01), the running store mirrors the device (C13), the verbatim re-application at the end
+// sends nothing (C09, reapply == true); what a caller does not own is a precondition (discarded and counted).
+func ExecGNMILoop(c *HistCase, pfx string, reapply bool) (nontrivial bool, labels []string, fail *Failure) {
+	ctx := context.Background()
+	env := MustEnv()
+	st := GetStats(pfx)
+	var tee *GNMITee
+	opts := HistEnvOpts{WrapTarget: func(dev *Device) target.Target {
+		gdev := NewGNMIDevice(dev.Snapshot())
+		gdev.NotifyOnSet = true
+		scb := schemaClient.NewSchemaClientBound(SchemaRef(), env.SchemaClient)
+		real, err := target.New(ctx, "gnmiloop", &config.SBI{Type: "gnmi", Address: "bufnet", Port: 1, GnmiOptions: &config.SBIGnmiOptions{Encoding: c.GNMI}}, scb, gdev.DialOpts()...)
+		if err != nil {
+			fmt.Fprintf(os.Stderr, "HARNESS-ERROR gnmi target: %v\n", err)
+			os.Exit(2)
+		}
+		tee = &GNMITee{Dev: dev, Real: real, GDev: gdev, Loop: true}
+		return tee
+	}}
+	opts.DS.Sync = GNMILoopSyncConfig(c.GNMI)
+	h, err := NewHistEnv(ctx, env, c, opts)
+	if err != nil {
+		fmt.Fprintf(os.Stderr, "HARNESS-ERROR %v\n", err)
+		os.Exit(2)
+	}
+	defer h.DS.Stop()
+	defer tee.GDev.Stop()
+	lab := map[string]bool{"closed-loop-gnmi-" + c.GNMI: true}
+	keys := func() []string {
+		var r []string
+		for k := range lab {
+			r = append(r, k)
+		}
+		return r
+	}
+	ownsDevice := pfx == "C01" && !reapply
+	ownsStore := pfx == "C13" && !reapply
+	lp, f := StartGNMILoop(h, tee, c.GNMI)
+	defer lp.Stop()
+	lp.Pfx = pfx
+	discard := func(f *Failure) (bool, []string, *Failure) {
+		st.Discard("closed-loop-precondition:" + f.Sig)
+		return false, []string{"discard"}, nil
+	}
+	if f == nil {
+		f = lp.CheckStore(h, "initial sync")
+	}
+	if f != nil {
+		if ownsStore {
+			return false, keys(), f
+		}
+		return discard(f)
+	}
+	for i, s := range c.Steps {
+		res := h.RunStep(s)
+		if !res.OK {
+			st.Discard("step-refused")
+			return false, []string{"discard"}, nil
+		}
+		if res.Effect.WinnerChanged || res.Effect.ShadowerRemoved {
+			nontrivial = true
+		}
+		where := fmt.Sprintf("step %d", i)
+		if f := CheckConvergence(h, where, res); f != nil {
+			if ownsDevice {
+				return nontrivial, keys(), f
+			}
+			return discard(f)
+		}
+		if f := lp.CheckStore(h, where); f != nil {
+			if ownsStore {
+				return true, keys(), f
+			}
+			return discard(f)
+		}
+		if ownsStore && h.Dev.Calls() > res.DevCallsBefore {
+			nontrivial = true
+		}
+	}
+	if reapply {
+		if len(h.Model.Intents) == 0 {
+			st.Discard("no-live-intent")
+			return false, []string{"discard"}, nil
+		}
+		if f := lp.Reapply(h, pfx, "end of history"); f != nil {
+			return true, keys(), f
+		}
+		return true, keys(), nil
+	}
+	return nontrivial, keys(), nil
+}
+
+// UniLoop: the universe of the gNMI closed loop - the plain subtree plus one leaf / leaf-list of every built-in type,
+// so that every value is written to the running store twice (by the transaction and by the sync of the device's
+// report) and compared.
+var UniLoop *Universe
+
+func init() {
+	ts := append([]Tmpl{}, UniPlainNA.Tmpls...)
+	for _, p := range []string{"types/i8", "types/i64", "types/u8", "types/u64", "types/d1", "types/d3", "types/d18", "types/str", "types/bool", "types/enu", "types/bits", "types/bin",
+		"types/emp", "types/idr", "types/uni", "types/ll-i8", "types/ll-u64", "types/ll-d3", "types/ll-str", "types/ll-bool", "types/ll-enu", "types/ll-idr", "types/ll-uni"} {
+		ts = append(ts, T(p))
+	}
+	UniLoop = &Universe{Name: "plain+types", Tmpls: ts}
+	Universes[UniLoop.Name] = UniLoop
+}
